@@ -370,7 +370,7 @@ Proof. destruct m; reflexivity. Qed.
 (* peek / latest: the closed form of the whole history *)
 Theorem peek_closed : rd_peek RN r = ROk r (RObs [] [cf l]).
 Proof.
-  rewrite (peek_spec' RN r Hwf Npos), Hini, Hshape. f_equal. f_equal.
+  rewrite (peek_head RN r Hwf Npos), Hini, Hshape. f_equal. f_equal.
   rewrite hd_nth0, Hrec, record_spec_nth by exact Npos.
   pose proof len_pos as Hl. destruct (Nat.ltb_spec 0 (length l)) as [_|H]; [|lia].
   rewrite Nat.sub_0_r, firstn_all. reflexivity.
